@@ -117,7 +117,7 @@ def gen_indented_code_doc(rng) -> str:
 
 def gen_code_doc(rng) -> str:
     fence = rng.choice(["```", "~~~", "````", "~~~~~~"])
-    info = rng.choice(["", "py", "python title=\"x y\"", "c++", "~x", "{% t %}", "\"q\"...", "a`b" if fence[0] == "~" else "ab"])
+    info = rng.choice(["", "py", "python title=\"x y\"", "c++", "~x", "{% t %}", "\"q\"...", "a`b" if fence[0] == "~" else "ab", "a\\\\|b", "x\\\\ y\\\\*z", "C:\\dir"])
     n = rng.randint(0, 6)
     body = [rng.choice(NASTY_CODE) for _ in range(n)]
     body = [l for l in body if not (l.strip().startswith(fence[0] * len(fence)) and set(l.strip()) == {fence[0]} and len(l) - len(l.lstrip()) < 4)]
